@@ -12,7 +12,7 @@
      * pd.concat(axis=0)                 -> flat_map
    Values: the harness encodes every number as VNum (lowest terms), strings as VStr, None/NaN as VNull, so pandas' value
    equality on key cells is Leibniz equality here.  No proofs in this file. *)
-From Coq Require Import List Bool Arith ZArith QArith String Ascii.
+From Coq Require Import List Bool Arith ZArith QArith String Ascii Permutation.
 Import ListNotations.
 From DA Require Import Base.PyRT Base.Val.
 
@@ -379,8 +379,23 @@ Fixpoint perm_eqb {A} `{EqDec A} (a b : list A) : bool :=
   end.
 Definition table_eqvb (t1 t2 : table) : bool :=
   perm_eqb (cols t1) (cols t2) && perm_eqb (rows (select_cols (cols t2) t1)) (rows t2).
+(* the same relation as a proposition (Proofs/CDataP1.v: table_eqvb t1 t2 = true <-> tbl_eqv t1 t2) *)
+Definition tbl_eqv (t1 t2 : table) : Prop :=
+  Permutation (cols t1) (cols t2) /\ Permutation (rows (select_cols (cols t2) t1)) (rows t2).
 
 (* ------------------------------------------------------------------ hypotheses of the theorems, as boolean predicates *)
+(* two block specifications describe the same records: the same record keys and the same value names (as sets) *)
+Definition same_records (a b : recspec) : bool :=
+  set_eqb (rs_keys a) (rs_keys b) && set_eqb (content_keys a) (content_keys b).
+(* the layout of a control table: per control row, its key tuple and the names of its value cells *)
+Definition ct_layout (s : recspec) : list (list val * list string) :=
+  map (fun cr => (cells (cols (rs_ct s)) cr (rs_ctkeys s),
+                  map (fun c => val_str (get (cols (rs_ct s)) cr c)) (value_cols s))) (rows (rs_ct s)).
+(* the same layout, the control rows possibly listed in another order (and the control table's columns too) *)
+Definition spec_simb (a b : recspec) : bool :=
+  eqb (rs_keys a) (rs_keys b) && eqb (rs_ctkeys a) (rs_ctkeys b) && eqb (value_cols a) (value_cols b)
+  && perm_eqb (ct_layout a) (ct_layout b).
+
 (* numeric cells are in lowest terms (the harness always emits them so); makes value equality Leibniz *)
 Definition val_canon (v : val) : bool := match v with VNum q => eqb (Qred q) q | _ => true end.
 Definition key_ok (k : list val) : bool := forallb (fun v => non_null v && val_canon v) k.
@@ -400,8 +415,7 @@ Definition strict_spec (s : recspec) : bool :=
 (* t has the columns ks; its rows are keyed by them: no null key cell, no repeated key tuple; with no record keys the
    table holds at most one record *)
 Definition keyed_by (ks : list string) (t : table) : bool :=
-  nodupb (cols t) && subset ks (cols t)
-  && forallb (fun r => Nat.eqb (List.length r) (List.length (cols t))) (rows t)
+  subset ks (cols t)
   && forallb (fun r => key_ok (cells (cols t) r ks)) (rows t)
   && nodupb (map (fun r => cells (cols t) r ks) (rows t)).
 
@@ -412,6 +426,16 @@ Definition conforming_rows (s : recspec) (t : table) : bool :=
    record has a row for every control-table key *)
 Definition ct_keys_of (s : recspec) : list (list val) :=
   map (fun cr => cells (cols (rs_ct s)) cr (rs_ctkeys s)) (rows (rs_ct s)).
+(* what a composite of a map with input side i and a map with output side o has to look like: the same input
+   specification, and an output specification with the layout of o (control rows/columns possibly in another order) *)
+Definition spec_eqb (a b : recspec) : bool :=
+  eqb (rs_keys a) (rs_keys b) && eqb (cols (rs_ct a)) (cols (rs_ct b)) && eqb (rows (rs_ct a)) (rows (rs_ct b))
+  && eqb (rs_ctkeys a) (rs_ctkeys b) && Bool.eqb (rs_strict a) (rs_strict b).
+Definition composite_ok (i o : option recspec) (c : recmap) : bool :=
+  match i, rm_in c with None, None => true | Some a, Some a' => spec_eqb a a' | _, _ => false end
+  && match o, rm_out c with None, None => true | Some b, Some b' => strict_spec b' && spec_simb b b' | _, _ => false end
+  && rm_strict c.
+
 Definition complete_blocks (s : recspec) (t : table) : bool :=
   keyed_by (rs_keys s ++ rs_ctkeys s) t && subset (block_columns s) (cols t)
   && forallb (fun r => mem (cells (cols t) r (rs_ctkeys s)) (ct_keys_of s)) (rows t)
